@@ -35,6 +35,9 @@ CLAIMS = {
     'C07': ('Lean 4 theorems on the regenerated model: validate = declarative predicate written from the published rule (Spec.Standards) for every string, for the formats proved so far; the Lean predicates are cross-checked against an independent Python transcription; failing-input search incl. exhaustive small spaces',
             'Proof of exact agreement (all strings) for the formats listed in obligations/C07.json; the remaining formats of the property are covered by the search against the independent '
             'Python reference only (listed as uncovered). Spec.Standards itself is tied to that reference by tools/corr/standards.py.', '§4 C07, §8', ''),
+    'C16': ('Lean 4 theorems on a hand-written model of gs1_128.py (info∘encode and validate fixed-point for every registry/validator environment and mappings of any size, under explicit well-formedness and six defect-excluding hypotheses; kernel-evaluated facts about the regenerated identifier table; negations of the full statements by kernel-evaluated witnesses), differential run, failing-input search',
+            'Proof on the hand-written model Spec.GS1 (tie = tools/corr/gs1.py on every check, all 213 identifiers). The full statements are false of the code as it is (seven known defects, each with a '
+            'proved witness and listed as a known finding); the proved theorems are the _partial versions whose hypotheses exclude exactly those cases.', '§4 C16, §8', ''),
     'C17': ('Lean 4 theorems on the regenerated model (single substitution / adjacent transposition of an accepted number is rejected) for 17 formats via refinement to the generic algorithms and the abstract fold-detection theorem; differential run; exhaustive neighbourhood search',
             'Proof for the formats listed in obligations/C17.json (every accepted number, every position, every same-class replacement); three ISBN-13/ISMN statements carry an extra ASCII-digit '
             'hypothesis (named _partial). Other listed formats: search only.', '§4 C17, §8', ''),
